@@ -557,3 +557,13 @@ def run(chk, repo, tier):
         chk.ob('R10.9', ok, CONSTS, node, key='const:' + cname,
                qualname='<module>', what='%s has its CODATA value and '
                                          'dimension' % cname, found=repr(q))
+
+
+def thorough(chk, repo):
+    """Thorough tier: the reference parser/evaluator is cross-validated
+    against the independent exact evaluator on a bounded-exhaustive family
+    of expressions."""
+    import sys
+    from .. import refexec
+    refexec.units_crosscheck(chk, repo, 'R10.T', sys.modules[__name__])
+
